@@ -168,7 +168,9 @@ def realise(case, seed=0):
         c3 = inner(u, v) / kappa + (conditional(ufl.lt(G, 0.5), 1, 3) / 2) * inner(u, v)
         # the same argument-dependent product once divided by a coefficient expression and once plain
         c4 = inner(u, v) / (3 + G * G) + inner(u, v)
-        form = (c1 * inner(u, v) + c2 + c3 + c4) * dX
+        # a power (with a negative exponent) of an integer-valued conditional is not an integer
+        c5 = conditional(ufl.gt(G, 0.5), 1, 3) ** -1 * inner(u, v)
+        form = (c1 * inner(u, v) + c2 + c3 + c4 + c5) * dX
     elif term == "absmax":
         F, G = ufl.Coefficient(V), coef("P1")
         form = (abs(F) * inner(u, v) + ufl.max_value(F, G) * inner(u, v) + ufl.min_value(F, 2) * inner(u, v)) * dX
